@@ -11,7 +11,7 @@ from vlib import Check, run_tlc, tlc_ok, MachineryError
 
 PROP = "C13"
 WORKERS = int(os.environ.get("VERIF_WORKERS", "8"))
-KIND = {"f": 0, "d": 1, "i": 2, "e": 3, "w": 4, "s": 5}
+KIND = {"f": 0, "d": 1, "i": 2, "e": 3, "w": 4, "s": 5, "g": 6, "G": 7, "F": 8}
 NAME = {"a": 0, "b": 1, "c": 2}
 ERR = {"": 0, "repeated_decl": 1, "undeclared_op_ref": 2, "import_export": 3}
 DEFT = {"mir": 0, "ext": 1, "res": 2}
@@ -23,7 +23,7 @@ def txt_case(idx, case, engine):
     for s in case["h"]:
         a = s["a"]
         if a == "load":
-            d = " ".join("%d %d" % (KIND[x[0]], NAME[x[1]]) for x in s["d"])
+            d = " ".join("%d %d %d" % (KIND[x[0]], NAME[x[1]], NAME[x[2]] if len(x) > 2 else -1) for x in s["d"])
             L.append("L %d %d %d %s %d %d" % (s["s"], s["v"], len(s["d"]), d, ERR[s["cerr"]], ERR[s["err"]]))
         elif a == "ext":
             L.append("X %d %d" % (NAME[s["n"]], s["id"]))
@@ -32,7 +32,7 @@ def txt_case(idx, case, engine):
         elif a == "link":
             mask = sum(1 << NAME[n] for n in s["R"])
             calls = " ".join(str(NAME[n]) for n in s["calls"])
-            b = " ".join("%d %d %d %d %d %d %d" % (x[0], x[1], NAME[x[2]], DEFT[x[3]], x[4], x[5], DEFK[x[6]]) for x in s["bound"])
+            b = " ".join("%d %d %d %d %d %d %d %d" % (x[0], x[1], NAME[x[2]], DEFT[x[3]], x[4], x[5], DEFK[x[6]], x[7]) for x in s["bound"])
             L.append("K %d %d %d %d %s %d %s" % (1 if s["res"] else 0, mask, ERR[s["err"]], len(s["calls"]), calls, len(s["bound"]), b))
         else:
             raise MachineryError("unknown step " + a)
@@ -153,7 +153,9 @@ def finding_key(key, engine, case, step):
 TIERS = {
     # (cfg, engines, simulate)
     "quick": [("MIRLink_mc.cfg", (0,), None)],
-    "thorough": [("MIRLink_mc.cfg", (0, 1), None), ("MIRLink_t.cfg", (0, 1), None), ("MIRLink_sim.cfg", (0, 1), (200, 16))],
+    # _t2: every shape (incl. the calling functions 12, 13 and the big function 14) at depth 6, a superset of _mc;
+    # _t: the shapes without calling functions at depth 7; _sim: long error-free histories over all of them
+    "thorough": [("MIRLink_t2.cfg", (0, 1), None), ("MIRLink_t.cfg", (0, 1), None), ("MIRLink_sim.cfg", (0, 1), (200, 16))],
 }
 
 
